@@ -50,6 +50,7 @@ class LazySource:
         self.ctx, self.n, self.susp = ctx, n, susp
         self.idx = 0
         self.refs = []
+        self.fetched_by = {}
         self.active = 0
         self.max_active = 0
         self.close_calls = 0
@@ -70,6 +71,7 @@ class LazySource:
                 raise StopAsyncIteration
             item = Item(self.idx)
             self.refs.append(weakref.ref(item))
+            self.fetched_by[self.idx] = getattr(self.ctx, "current_task", None)
             self.idx += 1
             return item
         finally:
@@ -209,6 +211,15 @@ def run_config(case, choices=None, default="rr"):
             problems.append(("item-retained-beyond-slowest-live-child",
                              f"alive={alive} lead={lead} got={[len(g) for g in got]} state={state}"))
             return
+        if live and not case.get("nested"):
+            # exactly WHICH items may still be alive: those some live child has yet to yield (and what a consumer that
+            # is being stepped holds this very moment)
+            allowed = set(range(min(live), src.idx))
+            stale = [k for k, r in enumerate(src.refs) if r() is not None and k not in allowed]
+            if stale and not any(t.pending is None and not t.done for t in sched.tasks):
+                problems.append(("item-alive-although-every-live-child-has-yielded-it",
+                                 f"items {stale} got={[len(g) for g in got]} state={state} fetched_by={src.fetched_by}"))
+                return
         all_done = all(s != "running" for s in state)
         if case.get("nested"):
             # only the OUTER children decide when the source is closed
